@@ -1,32 +1,16 @@
 import JadeModel.Proofs.SystemLive4
+import JadeModel.Proofs.SystemLive5Defs
+import JadeModel.Proofs.SystemLiveStepF
 
 set_option linter.unusedSimpArgs false
 
-/-!
-Fault-free executions, part 6: **the completion decision is sound** — when a fault-free round decides
+/-! Fault-free executions, part 6: **the completion decision is sound** — when a fault-free round decides
 "complete" (all jobs DONE, or forced because no batch is believed active), every configured job has a row
 in the consolidated results file; hence so does every job when the completion flag is on disk.
--/
+ -/
 
 namespace Jade.Sys
 open Jade.Ref
-
-/-- all invariants of fault-free executions -/
-structure LiveAll (s : Sys) : Prop where
-  cap : CapInv s
-  prog : ProgA s
-  outA : OutcomeA s
-  gate : GateInv s
-  l0 : Live0 s
-  l1 : Live1 s
-  l2 : Live2 s
-  l3 : Live3 s
-  l4 : Live4 s
-  l5 : Live5 s
-
-theorem liveAll_init (sc : Scn) : LiveAll (init sc) :=
-  ⟨capInv_init sc, progA_init sc, outcomeA_init sc, gateInv_init sc, live0_init sc, live1_init sc, live2_init sc, live3_init sc,
-    live4_init sc, live5_init sc⟩
 
 theorem liveAll_step {s s' : Sys} {op : Op} (hi : LiveAll s) (h : stepP s op = some s') : LiveAll s' := by
   have hs := stepP_step h
@@ -44,91 +28,6 @@ theorem liveAll_run {s s' : Sys} (ops : List Op) (hi : LiveAll s) (h : runP s op
     split at h
     · next s1 hs => exact ih (liveAll_step hi hs) h
     · cases h
-
-theorem isCompleteDecision_iff (n : Nat) (st : Status) :
-    isCompleteDecision n st = true ↔ ((∀ j : JobId, j < n → st.st j = .done) ∨ st.ids = []) := by
-  simp [isCompleteDecision]
-
-/-- in a fault-free round that ends with an empty HPC queue nothing is SUBMITTED any more -/
-theorem persisted_no_sub {s : Sys} (hi : LiveAll s) {q : Pid} {a : Bool} {x : SubP}
-    (hq : s.procs q = .sub a x) (hpc : x.pc = .persisted) (hout : x.out = []) (j : JobId) :
-    x.loc.st j ≠ .sub := by
-  intro hst
-  have hh : holds x.pc = true := by rw [hpc]; rfl
-  have hnew := (hi.l0.persisted q a x hq (by rw [hpc]; rfl)).1
-  have hpass := (hi.l0.collected q a x hq (by rw [hpc]; rfl)).1
-  rcases hi.l4.hSub q a x hq hh j hst with h | h | ⟨B, hB, -, k, hk, h | h⟩
-  · rw [hnew] at h; cases h
-  · rw [hpass] at h; exact (hasJob_nil j).1 h
-  · rw [hout] at h; cases h
-  · rcases hi.l4.quiet q a x hq (Or.inr (Or.inr hpc)) B hB k hk with h' | h'
-    · rw [hout] at h'; cases h'
-    · rw [h'] at h; exact (hasJob_nil j).1 h
-
-/-- …and nothing is NOT_SUBMITTED either: every job is DONE in the round's copy -/
-theorem persisted_all_done {s : Sys} (hi : LiveAll s) (rank : JobId → Nat) (hac : Acyclic s.sc.graph rank)
-    (hmax : 1 ≤ s.sc.maxNodes) {q : Pid} {a : Bool} {x : SubP}
-    (hq : s.procs q = .sub a x) (hpc : x.pc = .persisted) (hout : x.out = []) :
-    ∀ j : JobId, j < s.sc.n → x.loc.st j = .done := by
-  have hh : holds x.pc = true := by rw [hpc]; rfl
-  have hcol := hi.l0.collected q a x hq (by rw [hpc]; rfl)
-  have key : ∀ (k : Nat) (j : JobId), rank j = k → j < s.sc.n → x.loc.st j = .done := by
-    intro k
-    induction k using Nat.strongRecOn with
-    | _ k ih =>
-      intro j hk hj
-      cases hst : x.loc.st j with
-      | done => rfl
-      | sub => exact absurd hst (persisted_no_sub hi hq hpc hout j)
-      | ns =>
-        exfalso
-        have hne := hi.l5.nsBlocked q a x hq hpc hmax hout j hj hst
-        obtain ⟨b, hb⟩ := List.exists_mem_of_ne_nil _ hne
-        have hbl : b ∈ s.sc.graph.blockers j := hi.outA.subLoc q a x hq j b hb
-        have hbn : b < s.sc.n := hac.inside j hj b hbl
-        have hlt : rank b < rank j := hac.lt j hj b hbl
-        have hbd := ih (rank b) (by omega) b rfl hbn
-        rcases hi.l5.hBlk q a x hq hh j hst b hb with h | h | h
-        · exact h hbd
-        · rw [hcol.2] at h; cases h
-        · rw [hcol.1] at h; exact (hasJob_nil b).1 h
-  exact fun j hj => key (rank j) j rfl hj
-
-/-- **the decision is sound**: a fault-free round whose `_is_complete` answers True has a row for every job -/
-theorem decision_sound {s : Sys} (hi : LiveAll s) (rank : JobId → Nat) (hac : Acyclic s.sc.graph rank)
-    (hmax : 1 ≤ s.sc.maxNodes) (q : Pid) (a : Bool) (x : SubP)
-    (hq : s.procs q = .sub a x) (hpc : x.pc = .persisted) (hd : isCompleteDecision s.sc.n x.loc = true) :
-    ∀ j : JobId, j < s.sc.n → HasJob s.processed j := by
-  have hall : ∀ j : JobId, j < s.sc.n → x.loc.st j = .done := by
-    rcases (isCompleteDecision_iff _ _).1 hd with h | h
-    · exact h
-    · rw [hi.prog.persistedIds q a x hq hpc] at h
-      exact persisted_all_done hi rank hac hmax hq hpc h
-  have hcol := hi.l0.collected q a x hq (by rw [hpc]; rfl)
-  intro j hj
-  rcases hi.l1.locDone q a x hq j (hall j hj) with h | h
-  · exact h
-  · rw [hcol.2] at h; cases h
-
-/-- who decided "complete" — and the flag on disk — stand on a full consolidated file -/
-structure LiveF (s : Sys) : Prop where
-  decidedAll : ∀ q a y, s.procs q = .sub a y → ((y.pc = .unmarked ∧ y.decided = true) ∨ y.pc = .summarized) →
-    ∀ j : JobId, j < s.sc.n → HasJob s.processed j
-  completeAll : s.disk.complete = true → ∀ j : JobId, j < s.sc.n → HasJob s.processed j
-
-theorem liveF_init (sc : Scn) : LiveF (init sc) := by
-  refine ⟨?_, ?_⟩ <;> simp [init]
-
-set_option maxHeartbeats 32000000 in
-theorem liveF_step {s s' : Sys} {op : Op} (hall : LiveAll s) (rank : JobId → Nat) (hac : Acyclic s.sc.graph rank)
-    (hmax : 1 ≤ s.sc.maxNodes) (hi : LiveF s) (h : stepP s op = some s') : LiveF s' := by
-  have hsc := sc_step (stepP_step h)
-  have hdec := decision_sound hall rank hac hmax
-  have g1 := hall.gate.flags
-  obtain ⟨f1, f2⟩ := hi
-  plain_cases op h hs hg <;> (refine ⟨?_, ?_⟩ <;> frame_out)
-  all_goals first
-    | grind [SubP.load, persistStatus]
 
 theorem liveF_run {s s' : Sys} (ops : List Op) (rank : JobId → Nat) (hac : Acyclic s.sc.graph rank)
     (hmax : 1 ≤ s.sc.maxNodes) (hall : LiveAll s) (hi : LiveF s) (h : runP s ops = some s') :
